@@ -536,6 +536,15 @@ fn step(w: &mut W, ch: &mut Choices) {
             w.slots.push(Slot { cid: None, h: Some(Handle::Node(ji, What::Leaf(cid))) });
             w.slots.push(Slot { cid: None, h: Some(Handle::Node(lhs, What::Sum(vec![]))) });
             w.joins.push(JoinInfo { inc_slot: si, join_slot: a, lhs_slot: b });
+            // often only the child is observed: the join itself then stays unneeded while its
+            // dependencies are being swapped
+            if ch.flag(1, 2) {
+                if let Some(Handle::Node(l, what)) = &w.slots[b].h {
+                    let o = l.observe();
+                    w.trace.push(format!("o{} = observe(s{b})", w.obs.len()));
+                    w.obs.push(ObsE { o: Some(o), expect: Exp::Node(what.clone()), created_round: w.round, slot: b });
+                }
+            }
         }
         _ => {
             let oi = live_obs[ch.choose(live_obs.len())];
